@@ -897,7 +897,7 @@ class LabelledPreemptions(PreemptionList):
         return PreemptionList.__call__(self, n, me, en, why, sched)
 
 
-def single_preemption_sweep(run_once, max_points=400, occurrences=1, threads=2):
+def single_preemption_sweep(run_once, max_points=400, occurrences=1, threads=2, rotate=0):
     """
     Bounded-exhaustive exploration of all schedules with ONE preemption at a
     distinct program point: a first run without preemption lists the contested
@@ -906,7 +906,9 @@ def single_preemption_sweep(run_once, max_points=400, occurrences=1, threads=2):
     a preemption there towards each other thread.
     run_once(chooser) -> verdict.  Yields (preemption or None, verdict, chooser).
     """
-    base = LabelledPreemptions([])
+    # rotate: which of the enabled threads goes on when the running one blocks or when several
+    # time-outs expire at the same instant (0: the oldest thread, 1: the next one, ...)
+    base = LabelledPreemptions([], rotate)
     verdict = run_once(base)
     yield None, verdict, base
     seen = {}
@@ -918,5 +920,5 @@ def single_preemption_sweep(run_once, max_points=400, occurrences=1, threads=2):
             points.append((k, name, why))
     for k, name, why in points[:max_points]:
         for j in range(max(1, threads - 1)):
-            ch = LabelledPreemptions([(k, j)])
+            ch = LabelledPreemptions([(k, j)], rotate)
             yield (k, j, name, why), run_once(ch), ch
